@@ -292,7 +292,7 @@ fn main() {
     let mut rng = SplitMix64::new(rep.seed).fork(0xC18);
     let weights = [(0.9, 0.4), (0.5, 0.5), (0.0, 0.0), (0.4, 0.9)];
     let mut cells: Vec<Params> = Vec::new();
-    let n_cells = rep.tier.pick(6_000, 40_000);
+    let n_cells = rep.tier.pick(6_000, 8_000_000);
     for k in 0..n_cells {
         let (lo, hi) = *rng.pick(&[(-1.0, 1.0), (-5.12, 5.12), (0.0, 10.0), (-10.0, 10.0)]);
         let width = hi - lo;
